@@ -463,6 +463,7 @@ class PlanBuilder:
         self.infos = {}
         self.pools = {}
         self.counter = 0
+        self.collision_pairs = []
 
     def add_root(self, kind, spec, name=None):
         name = name or f"{kind[:3]}{self.counter}"
@@ -543,6 +544,17 @@ def _annotation_roots(pb, rng, size):
     rng.shuffle(roots)
     for kind, spec in roots[: rng.randint(1, 3 + size)]:
         names.append(pb.add_root(kind, spec))
+    # a stand-alone CDS / transcript on a chunk whose window cuts it (frame bookkeeping across the cut is stateful code)
+    coding = [t for gene in coll["genes"] for t in gene["transcripts"] if t.get("cds_starts")]
+    if coding and rng.random() < 0.4:
+        t = rng.choice(coding)
+        lo, hi = t["cds_starts"][0], t["cds_ends"][-1]
+        if hi - lo >= 6:
+            a = rng.randint(lo + 1, lo + (hi - lo) // 2) if rng.random() < 0.6 else max(0, lo - rng.randint(0, 3))
+            b = rng.randint(lo + (hi - lo) // 2 + 1, hi - 1) if rng.random() < 0.6 else min(L, hi + rng.randint(0, 3))
+            if b > a:
+                cut = {"mode": "chunk", "genome": g, "chunk": [a, b]}
+                names.append(pb.add_root(rng.choice(["cds", "cds", "transcript"]), specs.with_parent(t, cut)))
     # near-twin: same collection on another parent description
     if rng.random() < 0.5:
         p2 = specs.gen_parent(rng, g, must_cover=None)
@@ -578,7 +590,7 @@ def _annotation_roots(pb, rng, size):
 
 def _lowlevel_roots(pb, rng, size):
     names = []
-    hs = [specs.gen_parent_hierarchy(rng) for _ in range(rng.randint(1, 2))]
+    hs = [specs.gen_parent_hierarchy(rng, seqless=rng.random() < 0.3, depth=rng.choice([3, 3, 4]) if rng.random() < 0.3 else None) for _ in range(rng.randint(1, 2))]
     for h in hs:
         names.append(pb.add_root("parent", h))
         if len(h["levels"]) > 1 and rng.random() < 0.7:
@@ -588,6 +600,24 @@ def _lowlevel_roots(pb, rng, size):
             if loc["type"] != "empty":
                 loc["parent"] = h
             names.append(pb.add_root("location", loc))
+        # near-collision of coordinate systems: the same lower levels re-rooted without their top ancestor (same ids,
+        # same locations): what another caller who only knows the lower levels would build in the same process
+        if len(h["levels"]) >= 3 and rng.random() < 0.6:
+            h2 = copy.deepcopy(h)
+            top = h2["levels"][1]
+            h2["levels"] = [{"id": top["id"], "sequence_type": top["sequence_type"], "sequence": top["sequence"], "location": None, "parent": None}] + h2["levels"][2:]
+            if h2["levels"][0]["sequence"] is not None:
+                h2["levels"][0]["sequence"] = dict(h2["levels"][0]["sequence"])
+            names.append(pb.add_root("parent", h2))
+            loc = specs.gen_location(rng, max(2, h["leaf_len"]), allow_empty=False)
+            a = copy.deepcopy(loc)
+            a["parent"] = h
+            b = copy.deepcopy(loc)
+            b["parent"] = h2
+            pair = [pb.add_root("location", a), pb.add_root("location", b)]
+            rng.shuffle(pair)
+            names.extend(pair)
+            pb.collision_pairs.append(pair)
         # near-collisions: same location on a truncated hierarchy / without parent
         if rng.random() < 0.5:
             loc = specs.gen_location(rng, max(2, h["leaf_len"]), allow_empty=False)
@@ -613,10 +643,52 @@ def gen_plan(rng, check="C10", size=1, max_steps=60, known_avoid=()):
     nsess = rng.randint(2, 4)
     sessions = []
     style = rng.random()
-    focused = rng.random() < 0.4
+    r0 = rng.random()
+    focused = r0 < 0.30
+    covering = 0.30 <= r0 < 0.52
+    repeat_op = 0.52 <= r0 < 0.65
     if focused:
         nsess = rng.randint(1, 3)
         style = 1.0
+    if covering:
+        # full covering walk: every operation of one kind on one object, in a seed-chosen permutation, from one or
+        # two sessions (so that every ordered pair of operations shows up within few runs); kinds chosen evenly
+        kinds = sorted({pb.objects[n]["kind"] for n in roots})
+        kind = rng.choice(kinds)
+        target = rng.choice([n for n in roots if pb.objects[n]["kind"] == kind])
+        if kind == "transcript" and rng.random() < 0.5:
+            st = pb.call_step(0, target, BY_NAME["transcript"]["cds"], store_p=1.0)
+            if st and "store" in st:
+                sessions.append([st])
+                target, kind = st["store"], "cds"
+        for s in range(rng.choice([1, 2])):
+            ops = list(REGISTRY[kind])
+            rng.shuffle(ops)
+            steps = []
+            for op in ops[: rng.choice([len(ops), len(ops), 40, 25])]:
+                st = pb.call_step(len(sessions), target, op, store_p=0.05)
+                if st:
+                    steps.append(st)
+            sessions.append(steps)
+        nsess = 0
+        max_steps = max(max_steps, 110)
+    if repeat_op:
+        # the same question with different arguments, repeated: thrashes every argument-keyed memo / index
+        nsess = 0
+        for s in range(rng.randint(1, 2)):
+            target = rng.choice(roots)
+            kind = pb.objects[target]["kind"]
+            argops = [o for o in REGISTRY[kind] if o.args and "twin" not in o.args] or list(REGISTRY[kind])
+            chosen = [_pick_op(rng, argops) for _ in range(rng.randint(1, 2))]
+            steps = []
+            for _ in range(rng.randint(5, 12)):
+                st = pb.call_step(s, target, rng.choice(chosen), store_p=0.05)
+                if st:
+                    steps.append(st)
+                    if rng.random() < 0.25:  # and the very same arguments again, later
+                        steps.append(copy.deepcopy({k: v for k, v in st.items() if k != "store"}))
+            rng.shuffle(steps) if rng.random() < 0.3 else None
+            sessions.append(steps)
     for s in range(nsess):
         steps = []
         if focused:
@@ -665,6 +737,19 @@ def gen_plan(rng, check="C10", size=1, max_steps=60, known_avoid=()):
                         targets.append(st["store"])
                         if rng.random() < 0.5:
                             roots.append(st["store"])  # visible to later sessions too
+        sessions.append(steps)
+    # two callers describe a child placed on "the same" location of near-colliding coordinate systems
+    for pair in pb.collision_pairs:
+        steps = []
+        for n in pair:
+            st = pb.call_step(len(sessions), n, BY_NAME["location"]["Parent(location=self)"], store_p=0.6)
+            if st:
+                steps.append(st)
+                if "store" in st:
+                    for _ in range(rng.randint(0, 2)):
+                        st2 = pb.call_step(len(sessions), st["store"], _pick_op(rng, REGISTRY["parent"]), store_p=0.0)
+                        if st2:
+                            steps.append(st2)
         sessions.append(steps)
     # noise session
     fault_rate = rng.choice([0.0, 0.08, 0.15, 0.25])
